@@ -208,6 +208,45 @@ def first_chars_can(p, ch: str) -> bool:
     return False
 
 
+def last_char_can_be_word(p) -> bool:
+    """Over-approximation: can a match of p end in a word character *without* p insisting on a word boundary after it?
+    (If so, the rule can cut a longer identifier in two.)"""
+    items = list(p)
+    # trailing assertions
+    while items and items[-1][0] is sre_c.AT:
+        if items[-1][1] in (sre_c.AT_BOUNDARY, sre_c.AT_END, sre_c.AT_END_STRING):
+            return False
+        items.pop()
+    while items and items[-1][0] in (sre_c.ASSERT_NOT, sre_c.ASSERT):
+        direction, sub = items[-1][1]
+        if items[-1][0] is sre_c.ASSERT_NOT and direction == 1 and any(first_chars_can(sub, c) for c in 'a_0'):
+            return False            # (?!\w): nothing word-like may follow
+        items.pop()
+    if not items:
+        return False
+    op, av = items[-1]
+    wordish = 'aZ_09'
+    if op is sre_c.LITERAL:
+        return chr(av).isalnum() or chr(av) == '_'
+    if op is sre_c.NOT_LITERAL or op is sre_c.ANY:
+        return True
+    if op is sre_c.IN:
+        return any(_in_matches(av, ord(c)) for c in wordish)
+    if op is sre_c.CATEGORY:
+        return any(_cat_matches(av, ord(c)) for c in wordish)
+    if op is sre_c.BRANCH:
+        return any(last_char_can_be_word(a) for a in av[1])
+    if op is sre_c.SUBPATTERN:
+        if last_char_can_be_word(av[3]):
+            return True
+        return _nullable(av[3]) and last_char_can_be_word(items[:-1])
+    if op in (sre_c.MAX_REPEAT, sre_c.MIN_REPEAT):
+        if last_char_can_be_word(av[2]):
+            return True
+        return (av[0] == 0 or _nullable(av[2])) and last_char_can_be_word(items[:-1])
+    return True
+
+
 def _nullable(p) -> bool:
     for op, av in p:
         if op in (sre_c.LITERAL, sre_c.NOT_LITERAL, sre_c.ANY, sre_c.IN, sre_c.CATEGORY):
@@ -251,6 +290,7 @@ class LexModel:
     token_texts: Dict[str, Optional[Set[str]]]   # token -> finite set of source texts (None = unbounded)
     raw_value: Dict[str, bool]           # token value is the unmodified matched text
     F: Any = None
+    const_value: Dict[str, Any] = field(default_factory=dict)   # token -> the constant its rule stores into t.value on every path
 
     def producible(self) -> Set[str]:
         out = set()
@@ -329,4 +369,23 @@ def build(F: Facts, g: Optional[Grammar] = None) -> LexModel:
             token_texts[tok] = set(token_texts[tok]) | {kw}
         raw_value.setdefault(tok, True)
     lm = LexModel(spec, rules, order, reserved, token_texts, raw_value, F)
+    for name, rm in rules.items():
+        if rm.rule.func is None or not rm.value_changed or rm.type_expr is not None:
+            continue
+        tparam = ('param', rm.rule.func.args.args[0].arg) if rm.rule.func.args.args else None
+        vals = set()
+        every = True
+        for pth in rm.paths:
+            if pth.outcome[0] != 'return' or pth.outcome[1] != tparam:
+                continue
+            last = None
+            for e in pth.events:
+                if e.kind == 'store_attr' and freeze(e.obj) == tparam and e.attr == 'value':
+                    last = freeze(e.value)
+            if last is None or not (isinstance(last, tuple) and last[:1] == ('const',)):
+                every = False
+            else:
+                vals.add(last[1])
+        if every and len(vals) == 1:
+            lm.const_value[name] = next(iter(vals))
     return lm
